@@ -34,6 +34,10 @@
 (*                 residue-level attribute: seed3-C13-1)                                   *)
 (*   replaceVisible  values a link replaces are mirrored into the residue fragments, so a    *)
 (*                 later link selecting on that attribute sees them (seed5-C13-2)          *)
+(*   patternCache  residue-level matches cached per residue pattern of a link, stored in the   *)
+(*                 node numbering of the link that filled the cache (seed7-C13-1)           *)
+(*   defineLeak    `#define` parameter macros of polyply .itp input kept in one table for   *)
+(*                 the whole process and substituted into later files (seed7-C13-2)         *)
 (*   dfsTreeFrag   fragments are the components over depth-first TREE edges only  (F31, repaired) *)
 (*   fragIdOrder   block-copy correspondences are stored in merge order but looked up by an  *)
 (*                 id assigned in component-iteration order                       (F32, repaired) *)
@@ -59,12 +63,12 @@ RECURSIVE PresUpTo(_)
 PresUpTo(k) == IF k = 0 THEN <<>> ELSE Append(PresUpTo(k - 1), TLCEval(IF Dev.baseOnly THEN {BasePresentation(FFs[k])} ELSE Presentations(FFs[k])))
 PresTab == PresUpTo(Len(FFs))
 RECURSIVE LoadUpTo(_)
-LoadUpTo(k) == IF k = 0 THEN <<>> ELSE Append(LoadUpTo(k - 1), TLCEval({[L |-> Loaded(FFs[k], fs, Dev.itpGlobal), Li |-> Loaded(FFs[k], fs, FALSE)] : fs \in PresTab[k]}))
+LoadUpTo(k) == IF k = 0 THEN <<>> ELSE Append(LoadUpTo(k - 1), TLCEval({[L |-> LoadedM(FFs[k], fs, Dev.itpGlobal, Dev.defineLeak, <<>>), Li |-> Loaded(FFs[k], fs, FALSE)] : fs \in PresTab[k]}))
 LoadTab == LoadUpTo(Len(FFs))
 
 S0 == [pc |-> "load", L |-> L0, bx |-> <<>>, frags |-> <<>>, fid |-> <<>>, molN |-> 0, ord |-> <<>>, k |-> 1,
        M |-> [atoms |-> <<>>, gattr |-> <<>>, ints |-> {}, edges |-> {}, extra |-> <<>>, rm |-> {}],
-       corr |-> <<>>, added |-> {}, li |-> 1, todo |-> {}, grp |-> {}, noat |-> {}, orient |-> <<>>, err |-> "", fired |-> {}, out |-> ErrOut(""), exp |-> ErrOut("")]
+       corr |-> <<>>, added |-> {}, li |-> 1, todo |-> {}, grp |-> {}, noat |-> {}, pcache |-> <<>>, cached |-> FALSE, orient |-> <<>>, err |-> "", fired |-> {}, out |-> ErrOut(""), exp |-> ErrOut("")]
 \* exp: the declared result of the case, evaluated once and carried along
 Init == case \in Cases /\ s = [S0 EXCEPT !.exp = PResult(case)]
 
@@ -74,7 +78,7 @@ Fail(e) == s' = [s EXCEPT !.pc = "done", !.err = e, !.out = ErrOut(e)]
 Load == /\ s.pc = "load"
         /\ \E ld \in LoadTab[case.ff] :
              s' = [s EXCEPT !.pc = "match", !.L = ld.L, !.bx = FreshBx(FFof(case), ld.L),
-                            !.fired = IF ld.L # ld.Li THEN @ \cup {"itpGlobal"} ELSE @]
+                            !.fired = IF ld.L.ver # ld.Li.ver THEN @ \cup {"itpGlobal"} ELSE @]
         /\ UNCHANGED case
 
 (* ---- match_nodes_to_blocks *)
@@ -114,7 +118,8 @@ AddBlock ==
   /\ LET p == s.ord[s.k]
          F == FFof(case)
          nm == BlkName(case, p)
-         b == F.blocks[s.L.b[nm]]
+         b0 == F.blocks[s.L.b[nm]]
+         b == [b0 EXCEPT !.inters = [q \in DOMAIN b0.inters |-> [b0.inters[q] EXCEPT !.par = ParOf(s.L, s.L.b[nm], b0.inters[q].par)]]]
          isFrag == case.fi[p] # ""
          M == s.M
          nat == Len(M.atoms)
@@ -149,16 +154,41 @@ AddBlock ==
 (* ---- ApplyLinks *)
 CurLink == FFof(case).links[s.L.l[s.li]]
 \* orientLink: the residue edge is stored with an orientation (source, target); the link's order 0 goes to the source
-OrientOK(l, phi) == IF Dev.orientLink /\ NOrd(l) = 2 /\ {phi[1], phi[2]} \in case.E
+OrientOK(l, phi) == IF s.cached THEN TRUE          \* read from the cache: the order check was made by the link that filled it
+                    ELSE IF Dev.orientLink /\ NOrd(l) = 2 /\ {phi[1], phi[2]} \in case.E
                     THEN s.orient[{phi[1], phi[2]}] = phi[1]
                     ELSE OrderOK(case, l, phi)
+\* patternCache (seed7-C13-1): the residue-level matches that passed the order check are kept per RESIDUE PATTERN of the link (orders, residue
+\* names, residue-level connections - nothing that depends on the link's own numbering) for the whole run, but stored in the NODE NUMBERING of the
+\* residue graph of the link that filled the cache.  make_residue_graph numbers the residues of a link by their smallest atom key (atom name with
+\* its order prefix) in string order: `*` < `+` < `-` < digits < `<` < `>` < letters; more prefix characters sort earlier.  A later link of the same
+\* pattern whose atoms sort differently (an order-0 atom name starting with a digit next to `>` / `<` orders) reads the matches with the residues swapped.
+DigitFirst == {"1H", "1c", "2c"}          \* the atom names of the catalogue / the generators that start with a digit
+NumKey(l, i) == LET o == l.orders[i] IN
+                IF o >= 300 THEN 500 - (o - 300) ELSE IF o >= 200 THEN 600 - (o - 200) ELSE IF o >= 100 THEN 100 - (o - 100)
+                ELSE IF o > 0 THEN 200 - o ELSE IF o < 0 THEN 300 + o
+                ELSE IF \E a \in DOMAIN l.atoms : l.atoms[a].oi = i /\ l.atoms[a].an \in DigitFirst THEN 400 ELSE 700
+NumOf(l) == [i \in 1..NOrd(l) |-> 1 + Cardinality({j \in 1..NOrd(l) : NumKey(l, j) < NumKey(l, i)})]
+PatternOf(l) == [res |-> {<<l.orders[i], OrdRn(l, i)>> : i \in 1..NOrd(l)},
+                 con |-> {{l.orders[i], l.orders[j]} : <<i, j>> \in {pr \in (1..NOrd(l)) \X (1..NOrd(l)) : pr[1] < pr[2] /\ PEdge(l, pr[1], pr[2])}}]
+\* matches by node number: nm[k] = the residue matched to the node numbered k
+ToNum(l, phi) == [k \in 1..NOrd(l) |-> phi[CHOOSE i \in 1..NOrd(l) : NumOf(l)[i] = k]]
+FromNum(l, nm) == [i \in 1..NOrd(l) |-> nm[NumOf(l)[i]]]
 BeginLink == /\ s.pc = "begin"
              /\ IF s.li > Len(s.L.l)
                 THEN s' = [s EXCEPT !.pc = "write"]
                 ELSE \E o \in (IF Dev.orientLink THEN {f \in [case.E -> Pos(case)] : \A e \in case.E : f[e] \in e} ELSE {<<>>}) :
-                       s' = [s EXCEPT !.pc = "try", !.grp = {}, !.noat = {},
+                       LET l == CurLink
+                           pat == PatternOf(l)
+                           pre == Prefilter(s.M, l)
+                           hit == Dev.patternCache /\ pre /\ pat \in DOMAIN s.pcache
+                           fill == Dev.patternCache /\ pre /\ ~hit
+                       IN s' = [s EXCEPT !.pc = "try", !.grp = {}, !.noat = {},
                                       !.orient = IF s.li = 1 THEN o ELSE @,
-                                      !.todo = IF Prefilter(s.M, CurLink) THEN ResMatches(case, CurLink) ELSE {}]
+                                      !.cached = hit,
+                                      !.pcache = IF fill THEN (pat :> {ToNum(l, phi) : phi \in {m \in ResMatches(case, l) : OrderOK(case, l, m)}}) @@ @ ELSE @,
+                                      !.todo = IF hit THEN {FromNum(l, nm) : nm \in s.pcache[pat]}
+                                               ELSE IF pre THEN ResMatches(case, l) ELSE {}]
              /\ UNCHANGED case
 DictPut(D, new) == {x \in D : \A y \in new : Key(y) # Key(x)} \cup new
 TryMatch(phi) ==
